@@ -17,6 +17,9 @@ TStatic == /\ IsEv("static")
                         /\ (p.kind = "redirect" => e.loc = p.loc)
                         \* a conditional re-request with the ETag just received: not modified, no body
                         /\ (e.inm_status # 0 => e.inm_status = 304 /\ e.inm_body = 0)
+                        \* a revalidation by date (If-Modified-Since in the future): a file may be answered 304 without a body
+                        \* or sent again; everything else is answered as without the header
+                        /\ e.ims_kind = (IF p.kind = "file" /\ e.ims_kind = "notmodified" THEN "notmodified" ELSE p.kind)
                         /\ (p.kind = "silent" => ~e.written /\ e.next_ran /\ e.leaked = 0)   \* writes nothing (no status, no body,
                                                                                              \* no header), the rest of the chain runs
               IN Verdict(IF ok THEN "ok" ELSE "bad")
